@@ -257,6 +257,29 @@ def run(ctx):
     ok = len(rs) >= 1 and all(not r["pushes"] and r["rev"] is None and r["adv"] is not None and len(r["adv"]) == 1 and is_call(r["adv"][0], "char>::len_utf8")
                               and cur_char(strip_refs(call_args(r["adv"][0])[0])) for r in rs)
     ctx.check(ok, "D1-TOK-TABLE", DV, "row=other", "other characters: nothing pushed, advance len_utf8", "characters outside the rule are not skipped as `push nothing, advance by the character's UTF-8 length`", fn_span(body))
+    # D1-ADVANCE: on every back-edge path the cursor moves by exactly the byte length of what that row matched at the cursor
+    # (this alone keeps the cursor on a character boundary <= len: C17's exemptions for the slicing in this loop rest on it, not on the values pushed)
+    for key, rl in sorted(rows.items(), key=repr):
+        for r in rl:
+            adv = r["adv"]
+            kind = key[0]
+            if adv is None:
+                oka = False
+            elif kind == "digits":
+                oka = len(adv) == 1 and is_call(adv[0], "String::len", "str>::len") and mentions(adv[0], lambda s: is_call(s, "::take_while"))
+            elif kind == "sep" or kind == "letter":
+                oka = [const_int(a) for a in adv] == [1]
+            elif kind == "lit" and key[1] == nb:
+                oka = len(adv) == 2 and const_int(adv[0]) == len(nb) and is_call(adv[1], "String::len", "str>::len") and mentions(adv[1], lambda s: is_call(s, "::take_while"))
+            elif kind == "lit":
+                oka = [const_int(a) for a in adv] == [len(key[1])] and key[1].isascii()
+            elif kind == "other":
+                oka = len(adv) == 1 and is_call(adv[0], "char>::len_utf8") and cur_char(strip_refs(call_args(adv[0])[0]))
+            else:
+                oka = False
+            ctx.check(oka, "D1-ADVANCE", DV, "row=%s" % (key[1] if len(key) > 1 else kind), "cursor += byte length of the matched text",
+                      "in the %s row the cursor advances by %s, which is not the byte length of what was matched at the cursor (the next slice may start off a character boundary or past the end)"
+                      % (key[1] if len(key) > 1 else kind, [term_str(a) for a in adv] if adv is not None else None), fn_span(body), nontrivial=False)
     # the cursor char is the first char of s[idx..]
     cc = [e for p in backs for e in p.calls("Chars as std::iter::Iterator>::next")]
     okc = bool(cc) and all(mentions(e.args[0], lambda s: is_index_call(s) and strip_refs(call_args(s)[0]) == ("param", 1) and mentions(call_args(s)[1], lambda u: u[0] == "havoc" and u[1] == loc["idx"])) for e in cc)
